@@ -213,8 +213,11 @@ impl<T> Pool<T> {
         crate::verif::point("u_try_get:permit", Arc::as_ptr(&self.inner) as usize);
         let obj = {
             let mut queue = inner.queue.lock().unwrap();
-            queue.pop().unwrap()
+            queue.pop()
         };
+        // The queue can only be empty if the pool was closed (and cleared)
+        // after the permit had been obtained.
+        let obj = obj.ok_or(PoolError::Closed)?;
         #[cfg(deadpool_verif)]
         crate::verif::point("u_try_get:popped", Arc::as_ptr(&self.inner) as usize);
         permit.forget();
@@ -262,8 +265,11 @@ impl<T> Pool<T> {
         crate::verif::point("u_get:permit", Arc::as_ptr(&self.inner) as usize);
         let obj = {
             let mut queue = inner.queue.lock().unwrap();
-            queue.pop().unwrap()
+            queue.pop()
         };
+        // The queue can only be empty if the pool was closed (and cleared)
+        // after the permit had been obtained.
+        let obj = obj.ok_or(PoolError::Closed)?;
         #[cfg(deadpool_verif)]
         crate::verif::point("u_get:popped", Arc::as_ptr(&self.inner) as usize);
         permit.forget();
